@@ -377,6 +377,11 @@ Definition check_seq (c : seqcase) : verdict :=
     bloomcache -> tqcache -> blockstore:
       [BActive]  bloomcache.hasCached reads [active]            (reads, deletes)
       [BFilter]  ... then loads the filter pointer and tests membership
+      repaired hasCached ([d_toctou] off):
+      [BLoadR]   bl := b.bloom.Load()                 (generation g)
+      [BActiveR] b.BloomActive()
+      [BTest]    bl.HasTS(hash)
+      [BRecheck] b.bloom.Load() == bl: only then is "not in the filter" conclusive
       [TQuery]   tqcache.queryCache
       [TLock]    tqcache.lock(key, write)   (blocks)
       [SPre]     the backing store call (atomic map operation)
@@ -393,8 +398,9 @@ Definition check_seq (c : seqcase) : verdict :=
       [RActivate] active.Store(true), [RMuUnlock].
 
     Defect switches ([true] = what the code does today):
-      [d_toctou]: hasCached reads [active] and loads the filter in two steps;
-                  off = one atomic step.
+      [d_toctou]: hasCached reads [active] and only then loads the filter;
+                  off = the repaired order: load the filter, read [active], test,
+                  and trust a negative answer only if the same filter is still live.
       [d_early]:  [RActivate] is taken regardless of Puts that have written the
                   store but not yet added to the filter; off = it waits for them. *)
 
@@ -409,6 +415,10 @@ Inductive pc :=
 | PIdle
 | BActive (a : sk) (k : key)
 | BFilter (a : sk) (k : key)
+| BLoadR (a : sk) (k : key)
+| BActiveR (a : sk) (k : key) (g : nat)
+| BTest (a : sk) (k : key) (g : nat)
+| BRecheck (a : sk) (k : key) (g : nat)
 | TQuery (a : sk) (k : key)
 | TLock (a : sk) (k : key)
 | SPre (a : sk) (k : key)
@@ -518,7 +528,7 @@ Definition enter_inner (a : sk) (k : key) : pc := if c_tq cf then TQuery a k els
 Definition enter (a : sk) (k : key) : pc :=
   match a with
   | SKPut _ => enter_inner a k
-  | _ => if c_bloom cf then BActive a k else enter_inner a k
+  | _ => if c_bloom cf then (if d_toctou fl then BActive a k else BLoadR a k) else enter_inner a k
   end.
 
 (** the inner (2Q + store) part of a single-key call returned [r] *)
@@ -590,14 +600,23 @@ Definition tstep1 (s : cst) (t : tid) (th : thread) : option (shared * thread) :
       | o :: r => Some (h, mkT r (start_op o) (t_res th))
       end
   | BActive a k =>
-      if g_active h then
-        if d_toctou fl then Some (h, setpc th (BFilter a k))
-        else if bsub (pos k) (g_filt h) then Some (h, setpc th (enter_inner a k))
-             else Some (h, fin th (sk_missing a))
+      if g_active h then Some (h, setpc th (BFilter a k))
       else Some (h, setpc th (enter_inner a k))
   | BFilter a k =>
       if bsub (pos k) (g_filt h) then Some (h, setpc th (enter_inner a k))
       else Some (h, fin th (sk_missing a))
+  | BLoadR a k => Some (h, setpc th (BActiveR a k (g_gen h)))
+  | BActiveR a k g =>
+      if g_active h then Some (h, setpc th (BTest a k g))
+      else Some (h, setpc th (enter_inner a k))
+  | BTest a k g =>
+      (* a filter that is no longer live is never trusted (the re-check fails
+         whatever it answers), so its content need not be modelled *)
+      if (g =? g_gen h) && negb (bsub (pos k) (g_filt h)) then Some (h, setpc th (BRecheck a k g))
+      else Some (h, setpc th (enter_inner a k))
+  | BRecheck a k g =>
+      if g =? g_gen h then Some (h, fin th (sk_missing a))
+      else Some (h, setpc th (enter_inner a k))
   | TQuery a k =>
       match match lookup k (g_cache h) with Some e => sk_conclude a k e | None => None end with
       | Some r => Some (h, after_inner th a k r)
